@@ -123,7 +123,9 @@ def c04(trace, V):
         if rec["type"] == "to_humans":
             opt = rec["optimum"]
             V.resid("headline_vs_optimum", abs(headline - opt) / max(1e-12, abs(opt)))
-            V.check("headline_vs_optimum", opt * (1 - 1e-4) - 1e-9 <= headline <= opt * (1 + 5e-5) + 1e-9, idn,
+            # absolute slack 1e-6 percentage points: CBC's 1e-7 primal tolerance on the percent-fed rows with one
+            # order of head-room; without it "0.01 %" of a near-zero optimum (1e-6 % fed) is below solver precision
+            V.check("headline_vs_optimum", opt * (1 - 1e-4) - 1e-6 <= headline <= opt * (1 + 5e-5) + 1e-6, idn,
                     lambda: {"headline": headline, "optimum": opt, "relative": (headline - opt) / max(1e-12, abs(opt))},
                     "headline differs from the optimiser's own optimum by more than 0.01 %")
         # (4) CSV written for this round holds the returned numbers
@@ -562,9 +564,8 @@ def c18(trace, V):
                 "minimum human consumption does not add up to min(no-feed result, threshold)")
         for k in ORDER:
             bad = res[k] > r1[k] + 1e-9 * (1 + np.abs(r1[k]))
-            V.check("min_needs_bounded_by_round1", not bad.any() and bool((res[k] >= -1e-12).all()), dict(idn, food=k),
-                    lambda: {"month": first_bad(bad), "min_consumption": float(res[k][bad][0]) if bad.any() else float(res[k].min()),
-                             "round1": float(r1[k][bad][0]) if bad.any() else None},
+            V.check("min_needs_bounded_by_round1", not bad.any(), dict(idn, food=k),
+                    lambda: {"month": first_bad(bad), "min_consumption": float(res[k][bad][0]), "round1": float(r1[k][bad][0])},
                     "minimum consumption of a food exceeds what people ate of it in the no-feed round")
         # priority: food k non-zero only if the foods before it are used up (== their round-1 level)
         for i, k in enumerate(ORDER):
@@ -619,6 +620,9 @@ def c02(trace, V):
         code = rec["optimum"]
         idn = {"round_type": kind, "store": bool(rec["consts"]["STORE_FOOD_BETWEEN_YEARS"])}
         st_c, ref_c = reflp.build_and_solve(rec, meat="code")
+        if st_c.startswith("error"):
+            trace.probe("c02_reference_solver_failed")  # HiGHS gave up (numerical difficulties): no verdict
+            continue
         if st_c != "optimal":
             # the reference with the code's own meat rule must be feasible whenever the code's LP was
             V.check("optimum_is_true_optimum", False, dict(idn, cause="reference_" + st_c.split(":")[0]),
@@ -638,6 +642,9 @@ def c02(trace, V):
             continue
         st_p, ref_p = reflp.build_and_solve(rec, meat="phys")
         trace.probe("c02_phys_solved")
+        if st_p.startswith("error"):
+            trace.probe("c02_reference_solver_failed")
+            continue
         if st_p != "optimal":
             V.check("optimum_physically_achievable", False, dict(idn, cause="meat_rule", how="physical_" + st_p.split(":")[0]),
                     {"code_optimum": code, "physical_reference_status": st_p, "round": rec["index"] + 1},
